@@ -6,10 +6,10 @@
 (* EvalData.tla is run and the sanity theorems below are checked in every   *)
 (* state.  Evaluation happens in the Next step so that TLC's workers share  *)
 (* the load.                                                                *)
-EXTENDS EvalData
+EXTENDS EvalData, IOUtils
 
-VARIABLES x, res
-vars == <<x, res>>
+VARIABLES par, chk
+vars == <<par, chk>>
 
 At(k, n, i) == [k |-> k, n |-> n, i |-> i, a |-> <<>>]
 At2(k, n, i, a) == [k |-> k, n |-> n, i |-> i, a |-> a]
@@ -109,7 +109,8 @@ Stride == [x |-> 1, y |-> 1, z |-> 1, h |-> 1, m |-> 1, rho |-> 1, u |-> 1, v |-
            w |-> 1, p0 |-> 1, p1 |-> 2, q0 |-> 1]
 Types == [x |-> "double", y |-> "double", z |-> "double", h |-> "double", m |-> "double",
           rho |-> "double", u |-> "double", v |-> "double", w |-> "double",
-          p0 |-> "double", p1 |-> "long", q0 |-> "double"]
+          p0 |-> "double", p1 |-> "long", q0 |-> "double", cin |-> "double",
+          cacc |-> "double"]
 MkArr(a, nreal, pos, hs) ==
     [nreal |-> nreal, nall |-> 2, stv |-> 0, spv |-> 2,
      p |-> [x |-> pos, y |-> <<0, 0>>, z |-> <<0, 0>>, h |-> hs,
@@ -127,26 +128,25 @@ Case(k, pos0, pos1, h0, h1, nr1) ==
 
 Lattice == 0..2
 Hs == {2, 6}
+\* the run may be split over several TLC processes, one per program (MC_K)
+ProgSel == IF "MC_K" \in DOMAIN IOEnv
+           THEN {k \in DOMAIN Programs : ToString(k) = IOEnv.MC_K}
+           ELSE DOMAIN Programs
+NoPos == <<-1, -1>>
+XOf(p) == Case(p.k, p.p0, p.p1, p.h0, p.h1, p.nr1)
+\* the state holds only the parameters of the case and the truth values of
+\* the theorems (small states; the heavy evaluation happens in Next, shared
+\* by TLC's workers)
 Init ==
-    /\ \E k \in DOMAIN Programs, p0 \in Lattice \X Lattice, p1 \in Lattice \X Lattice,
-          h0 \in Hs \X Hs, h1 \in Hs \X Hs, nr1 \in {1, 2} :
-          x = Case(k, p0, p1, h0, h1, nr1)
-    /\ res = [done |-> FALSE]
-Next ==
-    /\ ~res.done
-    /\ x' = x
-    /\ LET A == Arr0(x)
-           nb == NbrsOfData(A, x.stride)
-           log == SpecLog(x)
-           rev == RevLoops(log)
-       IN res' = [done |-> TRUE, W |-> EvalLog(x, log, nb), R |-> EvalLog(x, rev, nb),
-                  log |-> log, rev |-> rev, nb |-> nb]
-Spec == Init /\ [][Next]_vars
+    /\ \E k \in ProgSel, h0 \in Hs \X Hs, h1 \in Hs \X Hs, nr1 \in {1, 2},
+          p0 \in Lattice \X Lattice :
+          par = [k |-> k, h0 |-> h0, h1 |-> h1, nr1 |-> nr1, p0 |-> p0, p1 |-> NoPos]
+    /\ chk = [done |-> FALSE]
 
 \* ---- theorems ------------------------------------------------------------
-A0 == Arr0(x)
 Particles == {<<a, i>> : a \in 0..1, i \in 0..1}
-PC(p, q) ==      \* pair context: destination p, source q
+PC(x, p, q) ==      \* pair context: destination p, source q
+    LET A0 == Arr0(x) IN
     [dx |-> Vec3(A0[p[1]], x.stride, p[2], "x", "y", "z"), sx |-> Vec3(A0[q[1]], x.stride, q[2], "x", "y", "z"),
      dv |-> Vec3(A0[p[1]], x.stride, p[2], "u", "v", "w"), sv |-> Vec3(A0[q[1]], x.stride, q[2], "u", "v", "w"),
      dh |-> PAt(A0[p[1]], x.stride, "h", p[2], 0), sh |-> PAt(A0[q[1]], x.stride, "h", q[2], 0),
@@ -155,10 +155,10 @@ PC(p, q) ==      \* pair context: destination p, source q
 Neg(v) == [k \in 1..3 |-> -v[k]]
 
 TableOK == TableComplete /\ TableAcyclic
-\* a level-by-level order is admissible for every single request and for all
 RECURSIVE SeqFrom(_)
 SeqFrom(S) == IF S = {} THEN <<>>
               ELSE LET m == CHOOSE v \in S : TRUE IN <<m>> \o SeqFrom(S \ {m})
+\* a level-by-level order is admissible for every single request and for all
 SeqOfLevels(N) == Flat([k \in DOMAIN SymLevels |-> SeqFrom(SymLevels[k] \cap N)])
 OrderOK == /\ \A n \in SymNames : GoodOrder(SeqOfLevels(Needed({n})), {n})
            /\ GoodOrder(SeqOfLevels(SymNames), SymNames)
@@ -166,41 +166,80 @@ OrderOK == /\ \A n \in SymNames : GoodOrder(SeqOfLevels(Needed({n})), {n})
            /\ SymArrays({"WIJ"}) = {"d_x", "s_x", "d_y", "s_y", "d_z", "s_z", "d_h", "s_h"}
            /\ ~GoodOrder(<<"R2IJ", "XIJ">>, {"R2IJ"})
            /\ ~GoodOrder(<<"XIJ">>, {"R2IJ"})
+ASSUME TableOK
+ASSUME OrderOK
 \* symmetry / antisymmetry of the pair symbols; the rational ones
-PairLaws ==
+PairLaws(x) ==
     \A p, q \in Particles :
-        /\ XIJ(PC(p, q)) = Neg(XIJ(PC(q, p))) /\ VIJ(PC(p, q)) = Neg(VIJ(PC(q, p)))
-        /\ HIJ(PC(p, q)) = HIJ(PC(q, p)) /\ R2IJ(PC(p, q)) = R2IJ(PC(q, p))
-        /\ RHOIJ(PC(p, q)) = RHOIJ(PC(q, p))
-        /\ 2 * HIJ(PC(p, q)) = PC(p, q).dh + PC(p, q).sh
-        /\ RMul(RHOIJ1(PC(p, q)), RInt(RHOIJ(PC(p, q)))) = RInt(1)
-        /\ RMul(EPS(PC(p, q)), RInt(100)) = RInt(HIJ(PC(p, q)) * HIJ(PC(p, q)))
-        /\ IsRat(RHOIJ1(PC(p, q))) /\ IsRat(EPS(PC(p, q)))
-        /\ SymVal("WI", 0, PC(p, q)) = SymVal("WJ", 0, PC(q, p)) - 2 * (XIJ(PC(q, p))[1] + 3 * XIJ(PC(q, p))[2] + 5 * XIJ(PC(q, p))[3])
+        LET c == PC(x, p, q)
+            r == PC(x, q, p)
+        IN
+        /\ XIJ(c) = Neg(XIJ(r)) /\ VIJ(c) = Neg(VIJ(r))
+        /\ HIJ(c) = HIJ(r) /\ R2IJ(c) = R2IJ(r)
+        /\ RHOIJ(c) = RHOIJ(r)
+        /\ 2 * HIJ(c) = c.dh + c.sh
+        /\ RMul(RHOIJ1(c), RInt(RHOIJ(c))) = RInt(1)
+        /\ RMul(EPS(c), RInt(100)) = RInt(HIJ(c) * HIJ(c))
+        /\ IsRat(RHOIJ1(c)) /\ IsRat(EPS(c))
+        /\ SymVal("WI", 0, c) = SymVal("WJ", 0, r) - 2 * (XIJ(r)[1] + 3 * XIJ(r)[2] + 5 * XIJ(r)[3])
 \* the probe kernel tells d_h, s_h and HIJ apart wherever they differ
-KernelDistinguishes ==
+KernelDistinguishes(x) ==
     \A p, q \in Particles :
-        LET c == PC(p, q) IN
+        LET c == PC(x, p, q) IN
         c.dh # c.sh =>
             /\ Cardinality({SymVal("WI", 0, c), SymVal("WJ", 0, c), SymVal("WIJ", 0, c)}) = 3
             /\ Cardinality({SymVal("WDASHI", 0, c), SymVal("WDASHJ", 0, c), SymVal("WDASHIJ", 0, c)}) = 3
             /\ Cardinality({SymVal("GHI", 0, c), SymVal("GHJ", 0, c), SymVal("GHIJ", 0, c)}) = 3 \/ R2IJ(c) = 0
             /\ Cardinality({SymVec("DWI", c), SymVec("DWJ", c), SymVec("DWIJ", c)}) = 3 \/ XIJ(c) = <<0, 0, 0>>
             /\ SymVal("WDP", 0, c) # SymVal("WIJ", 0, c) \/ R2IJ(c) = 9 * HIJ(c) * HIJ(c)
-\* the result does not depend on the order in which neighbours are visited
-Deterministic == res.done => res.W = res.R
-\* the reversed log is a behaviour the documented order allows
-RevAllowed == res.done => Matches(NProg(x.prog), A0, res.nb, x.env, res.rev)
-InRange == res.done => ~res.W.bad
-\* frame: properties no statement targets, and every base property, are unchanged
-Targets == UNION {UNION {{x.body[k][h][i].tn : i \in DOMAIN x.body[k][h]} : h \in Hooks} : k \in DOMAIN x.body}
-Frame == res.done =>
-    \A a \in 0..1 : /\ \A n \in DOMAIN A0[a].p : n \notin Targets => res.W.A[a].p[n] = A0[a].p[n]
-                    /\ \A n \in DOMAIN A0[a].c : n \notin Targets => res.W.A[a].c[n] = A0[a].c[n]
-WF == WellFormed(x)
-EqDest(id) == LET E == ProgEqs(NProg(x.prog)) IN E[CHOOSE i \in DOMAIN E : E[i].eid = id].dest
-\* ghosts are never destinations of a real group but always contribute as sources
-GhostRule == res.done =>
-    \A i \in DOMAIN res.log :
-        /\ res.log[i].k = "loop" => res.log[i].s \in res.nb[<<EqDest(res.log[i].id), res.log[i].a, res.log[i].d>>]
+Targets(x) == UNION {UNION {{x.body[k][h][i].tn : i \in DOMAIN x.body[k][h]} : h \in Hooks} : k \in DOMAIN x.body}
+EqDest(x, id) == LET E == ProgEqs(NProg(x.prog)) IN E[CHOOSE i \in DOMAIN E : E[i].eid = id].dest
+
+\* Bind(v, F): F(v) with v evaluated exactly once (TLC re-evaluates LET
+\* definitions at every use while it computes successor states)
+Bind(v, F(_)) == CHOOSE r \in {F(u) : u \in {v}} : TRUE
+Theorems(x) ==
+    Bind(<<Arr0(x), NbrsOfData(Arr0(x), x.stride), SpecLog(x), Targets(x)>>, LAMBDA c1 :
+    Bind(<<EvalLog(x, c1[3], c1[2]), RevLoops(c1[3])>>, LAMBDA c2 :
+    Bind(EvalLog(x, c2[2], c1[2]), LAMBDA R :
+    LET A == c1[1]
+        nb == c1[2]
+        log == c1[3]
+        T == c1[4]
+        W == c2[1]
+        rev == c2[2]
+    IN [done |-> TRUE,
+        \* the result does not depend on the order in which neighbours are visited
+        det |-> W = R,
+        \* the reversed log is a behaviour the documented order allows
+        rev |-> Matches(NProg(x.prog), A, nb, x.env, rev),
+        inrange |-> ~W.bad,
+        \* frame: properties no statement targets (all base properties) are unchanged
+        frame |-> \A a \in 0..1 :
+                    /\ \A n \in DOMAIN A[a].p : n \notin T => W.A[a].p[n] = A[a].p[n]
+                    /\ \A n \in DOMAIN A[a].c : n \notin T => W.A[a].c[n] = A[a].c[n],
+        wf |-> WellFormed(x),
+        \* every source particle visited in a loop is a neighbour (ghosts included)
+        nbr |-> \A i \in DOMAIN log :
+                   log[i].k = "loop" => log[i].s \in nb[<<EqDest(x, log[i].id), log[i].a, log[i].d>>],
+        \* (these two depend on the data only: evaluated with the first program)
+        pair |-> x.prog # Programs[1].prog \/ PairLaws(x),
+        kd |-> x.prog # Programs[1].prog \/ KernelDistinguishes(x),
+        nev |-> Len(log)])))
+Next ==
+    /\ ~chk.done
+    /\ \E p1 \in Lattice \X Lattice :
+          /\ par' = [par EXCEPT !.p1 = p1]
+          /\ chk' = Bind(XOf([par EXCEPT !.p1 = p1]), LAMBDA xx : Theorems(xx))
+Spec == Init /\ [][Next]_vars
+
+Deterministic == chk.done => chk.det
+RevAllowed == chk.done => chk.rev
+InRange == chk.done => chk.inrange
+Frame == chk.done => chk.frame
+WF == chk.done => chk.wf
+NbrRule == chk.done => chk.nbr
+PairLawsHold == chk.done => chk.pair
+KernelDistinguishesHolds == chk.done => chk.kd
+NonTrivial == chk.done => chk.nev > 0
 =============================================================================
